@@ -16,7 +16,18 @@ import json, os, subprocess, sys, shutil, hashlib, time
 VERIF = os.path.dirname(os.path.dirname(os.path.abspath(__file__)))
 REPO = os.environ.get("VERIF_REPO", "/repo")
 BUILD = os.path.join(VERIF, ".build")
+if os.path.realpath(REPO) != "/repo":
+    # builds against a scratch copy of the repository get their own directory
+    BUILD = os.path.join(VERIF, ".build", "alt-" + hashlib.sha1(os.path.realpath(REPO).encode()).hexdigest()[:10])
 SIM = os.path.join(VERIF, "sim")
+
+
+def write_if_changed(path, data):
+    if os.path.exists(path) and open(path).read() == data:
+        return
+    tmp = "%s.tmp.%d" % (path, os.getpid())
+    open(tmp, "w").write(data)
+    os.replace(tmp, path)
 
 EXTRA_REQUIRE = [
     "github.com/anishathalye/porcupine v1.3.0",
@@ -42,15 +53,13 @@ def gen_modfile():
     extra = "\nrequire (\n" + "".join("\t%s\n" % r for r in EXTRA_REQUIRE) + ")\n"
     mod = os.path.join(BUILD, "go.mod")
     new = src + extra
-    if not os.path.exists(mod) or open(mod).read() != new:
-        open(mod, "w").write(new)
+    write_if_changed(mod, new)
     sums = open(os.path.join(REPO, "go.sum")).read()
     extra_sum = os.path.join(VERIF, "tools", "extra.sum")
     if os.path.exists(extra_sum):
         sums += open(extra_sum).read()
     sumf = os.path.join(BUILD, "go.sum")
-    if not os.path.exists(sumf) or open(sumf).read() != sums:
-        open(sumf, "w").write(sums)
+    write_if_changed(sumf, sums)
     return mod
 
 def gen_overlay():
@@ -70,8 +79,7 @@ def gen_overlay():
             replace[dst] = srcp
     ov = os.path.join(BUILD, "overlay.json")
     data = json.dumps({"Replace": replace}, indent=1, sort_keys=True)
-    if not os.path.exists(ov) or open(ov).read() != data:
-        open(ov, "w").write(data)
+    write_if_changed(ov, data)
     return ov
 
 def build(engine, race=False, quiet=False):
